@@ -174,13 +174,14 @@ def scenarios(tier):
     k0, k1 = SIGMA[0][1], SIGMA[1][1]
     S = [
         Scenario("first-call/dispatch", BASE, SIGMA, _noop, _first_call("dispatch", k1), [ids(BASE)]),
-        Scenario("first-call/Ovld.__call__", BASE, SIGMA, _noop, _first_call("ovld", k0), [ids(BASE)]),
         Scenario("cache-miss/call_next-chain", BASE, SIGMA, _warm([5]), _call(k1), [ids(BASE)]),
-        Scenario("rebuild/register-after-use", BASE, SIGMA, _warm([k1, 5]), _register(8), [ids(BASE), ids(BASE) + (8,)]),
         Scenario("rebuild/register-changes-entry-point", BASE, SIGMA2, _warm([k1, 5]), _register(7), [ids(BASE), ids(BASE) + (7,)]),
+        LinkedScenario("rebuild/linked-children-of-unbuilt-parent", BASE, SIGMA[:3], _noop, _register_on_parent(8), [ids(BASE), ids(BASE) + (8,)]),
     ]
     if tier != "quick":
         S += [
+            Scenario("first-call/Ovld.__call__", BASE, SIGMA, _noop, _first_call("ovld", k0), [ids(BASE)]),
+            Scenario("rebuild/register-after-use", BASE, SIGMA, _warm([k1, 5]), _register(8), [ids(BASE), ids(BASE) + (8,)]),
             Scenario("first-use/__get__", BASE, SIGMA, _noop, _get, [ids(BASE)]),
             Scenario("first-use/resolve", BASE, SIGMA, _noop, _resolve(k1), [ids(BASE)]),
             Scenario("rebuild/unregister-after-use", BASE, SIGMA, _warm([k1, 5]), _unregister(2), [ids(BASE), tuple(i for i in ids(BASE) if i != 2)]),
@@ -191,6 +192,37 @@ def scenarios(tier):
     else:
         S += [Scenario("cache-miss/dependent", DEP, SIGMA_DEP, _warm(["s"]), _call(2), [ids(DEP)])]
     return S
+
+
+class LinkedScenario(Scenario):
+    """A never-built parent with two built children created with linkback; the operation registers a method on
+    the parent; the probed function is the SECOND child (rebuilt last)."""
+
+    def setup(self):
+        allspecs = self.mspecs + [m for m in EXTRAS if m["id"] not in {x["id"] for x in self.mspecs}]
+        parent = gen.Program(CLASSES, allspecs, annotate=self.annotate, register=False)
+        for m in self.mspecs:
+            parent.ov.register(parent.fns[m["id"]], priority=m.get("prio", 0))
+        c1 = parent.ov.copy(linkback=True)
+        c2 = parent.ov.copy(linkback=True)
+        child = gen.Program(CLASSES, [], annotate=self.annotate)
+        child.ov = c2
+        child.log = parent.log
+        child.fref[0] = c2
+        for c in (c1, c2):
+            gen.run_call(getattr(c, "dispatch", c), (SIGMA[1][1],), {}, [])
+            gen.run_call(getattr(c, "dispatch", c), (5,), {}, [])
+        st = {"prog": child, "parent": parent, "c1": c1}
+        return st
+
+
+def _register_on_parent(mid):
+    def op(st):
+        p = st["parent"]
+        m = [m for m in EXTRAS if m["id"] == mid][0]
+        p.ov.register(p.fns[mid], priority=m.get("prio", 0))
+
+    return op
 
 
 def norm(out):
@@ -214,7 +246,7 @@ def registered_ids(p):
     """Which methods the function holds after the fault (in registration order), read from the library's own
     method table; None when that table cannot be read (then both the old and the new set count as complete)."""
     try:
-        items = sorted(p.ov._defns.items(), key=lambda kv: kv[0].tiebreak)
+        items = sorted(p.ov.defns.items(), key=lambda kv: kv[0].tiebreak)
         return tuple(gen.handler_key(fn)[1] for _, fn in items)
     except AttributeError:
         return None
